@@ -312,12 +312,13 @@ impl BitMask {
             self.lsb(reg_byte_len, endianness),
             self.msb(reg_byte_len, endianness),
         );
-        let res = (reg_value & mask) >> lsb;
+        // Shift logically: the field may contain the sign bit of the `i64`.
+        let res = (((reg_value & mask) as u64) >> lsb) as i64;
 
         match sign {
             Sign::Signed if res >> (msb - lsb) == 1 => {
                 // Do sign extension.
-                res | ((-1) ^ (mask >> lsb))
+                res | ((-1) ^ (((mask as u64) >> lsb) as i64))
             }
             _ => res,
         }
